@@ -19,7 +19,7 @@ class Run:
 
 
 def run_portfolio(spec, split=None, solver=None, do_optimize=True, do_extract=True, built=None, fix_time_window=None,
-                  rec=None, prices=None, skip_nodes=None, one_call=False, data_form='dict'):
+                  rec=None, prices=None, skip_nodes=None, one_call=False, data_form='dict', timegrid=None, via_json=False):
     """Executes the real calls. Exceptions are caught and reported with the stage they came from."""
     r = Run()
     import eaopack.io as eio
@@ -30,6 +30,14 @@ def run_portfolio(spec, split=None, solver=None, do_optimize=True, do_extract=Tr
             r.stage = 'build'
             r.built = built or build(spec)
             b = r.built
+            if timegrid is not None:
+                b.timegrid = timegrid          # (fresh assets on a Timegrid object that has been used before)
+            if via_json and built is None:
+                # the portfolio goes through its JSON form before it is used (documented way of storing / exchanging portfolios)
+                import eaopack.serialization as _ser
+                r.stage = 'json'
+                b.portfolio = _ser.load_from_json(_ser.to_json(b.portfolio))
+                b.assets = {a_.name: a_ for a_ in b.portfolio.assets}
             pr = b.prices if prices is None else prices
             r.stage = 'setup'
             kw = {}
